@@ -25,6 +25,8 @@ SCOPE = [
     'oal_model::grammar::Context::span', 'oal_model::grammar::NodeRef::span',
 ]
 MUST_HAVE = SCOPE[:7]
+# a private conversion site that may be inlined into its only caller: analysed there when it is gone
+ALTERNATIVE = {'oal_client::lsp::Workspace::diagnostic': 'oal_client::lsp::Workspace::diagnostics'}
 
 
 def newline_guarded(fn, block):
@@ -49,6 +51,8 @@ def run_units(c, facts, rule_prefix='C16', scope=None, must=None, floors=True):
     nacc = 0
     for q in (scope or SCOPE):
         fn = facts.fn(q)
+        if fn is None and q in ALTERNATIVE and facts.fn(ALTERNATIVE[q]) is not None and P.call_blocks(facts.fn(ALTERNATIVE[q]), 'unicode::utf8_range_to_position'):
+            fn = facts.fn(ALTERNATIVE[q])
         if fn is None:
             if q in (must or MUST_HAVE):
                 c.bad(R1, 'anchor-missing:' + q, 'function %s not found' % q)
